@@ -9,6 +9,7 @@
 #include <cstdlib>
 #include "JSON.hpp"
 #include "Template.hpp"
+#include "BigInt.hpp"
 using namespace Qentem;
 
 static char *exact(const char *s, size_t n) {
@@ -79,6 +80,19 @@ static Case cases[] = {
          if (s->Length() != 4 || memcmp(s->First(), want, 4) != 0)
              return printf("expected F1 90 80 80, got %u units starting %02X\n", s->Length(), (unsigned char)s->First()[0]), 1;
          return 0;
+     }},
+    // ---- C19 BigInt
+    {"bigint_zero_shift_left_word", [] {
+         BigInt<SizeT64, 256U> z;
+         z <<= 64U;   // zero shifted by a whole word: the normalising scan must stop at word 0
+         return z.IsZero() ? 0 : 1;
+     }},
+    {"bigint_find_first_bit_low_word", [] {
+         BigInt<SizeT64, 256U> b{1ULL};
+         b <<= 64U;
+         b |= 8ULL;   // words [8, 1]: lowest set bit is bit 3
+         SizeT32 r = b.FindFirstBit();
+         return (r == 3U) ? 0 : (printf("FindFirstBit = %u, want 3\n", r), 1);
      }},
     // ---- C18 grouping
     {"groupby_key_position", [] {
